@@ -32,10 +32,12 @@ var cellDefs = []cellDef{
 	{name: "dolist.list", needsExit: true}, {name: "dolist.body"}, {name: "dolist.result"},
 	{name: "dotimes.count", needsExit: true}, {name: "dotimes.body"}, {name: "dotimes.result"},
 	{name: "do.init"}, {name: "do.step"}, {name: "do.test", needsExit: true}, {name: "do.result"}, {name: "do.body"},
+	{name: "do*.init"}, {name: "do*.step"}, {name: "do*.test", needsExit: true}, {name: "do*.result"}, {name: "do*.body"},
+	{name: "multiple-value-bind.values"}, {name: "multiple-value-bind.body"}, {name: "multiple-value-bind.last"},
 	{name: "call.arg"}, {name: "setq.value"},
 	{name: "funcall-lambda.body"}, {name: "funcall-lambda.last"},
 	{name: "mapcar-lambda.body"}, {name: "mapcar-lambda.last"},
-	{name: "defun.body"}, {name: "defun.last"},
+	{name: "defun.body"}, {name: "defun.last"}, {name: "closure.body"},
 	{name: "block.body", wrapper: true}, {name: "block.last", wrapper: true},
 	{name: "tagbody.stmt", wrapper: true},
 	{name: "unwind-protect.protected", wrapper: true}, {name: "unwind-protect.cleanup", wrapper: true},
@@ -43,7 +45,6 @@ var cellDefs = []cellDef{
 	{name: "ignore-errors.body", wrapper: true}, {name: "ignore-errors.last", wrapper: true},
 	{name: "recover.body", wrapper: true}, {name: "recover.last", wrapper: true}, {name: "recover.handler", wrapper: true},
 	{name: "with-open-file.body", wrapper: true}, {name: "with-open-file.last", wrapper: true},
-	{name: "return-from.value", needsBlk: true}, {name: "return.value", needsBlk: true},
 }
 
 var cellByName = map[string]*cellDef{}
@@ -74,13 +75,25 @@ type builder struct {
 	streams    int
 	fns        int
 	defuns     []*sx
+	extra      func() *sx // optional producer of side trees for cleanup positions
 }
 
 func newBuilder() *builder { return &builder{m: 0, c: 100, h: 200, g: 300} }
 
-func (b *builder) M() *sx  { b.m++; return call("vtr", num(b.m)) }
-func (b *builder) N() *sx  { b.m++; return call("vtn", num(b.m)) }
-func (b *builder) C() *sx  { b.c++; return call("vtr", num(b.c)) }
+func (b *builder) M() *sx { b.m++; return call("vtr", num(b.m)) }
+func (b *builder) N() *sx { b.m++; return call("vtn", num(b.m)) }
+func (b *builder) C() *sx {
+	b.c++
+	m := call("vtr", num(b.c))
+	if b.extra != nil {
+		if side := b.extra(); side != nil {
+			// a cleanup that does more than leave a marker: a self-contained
+			// form with its own exit, running while the outer exit is in flight
+			return call("progn", m, side)
+		}
+	}
+	return m
+}
 func (b *builder) HM() *sx { b.h++; return call("vcl", num(b.h), atom("rv")) }
 
 func (b *builder) before(L *layer) *sx {
@@ -187,18 +200,23 @@ func (b *builder) wrap(L *layer, X *sx) *sx {
 			return call("dotimes", lst(atom("i"), num(2), X), b.M())
 		}
 		return call("dotimes", lst(atom("i"), num(2)), P(), X, A())
-	case "do":
+	case "multiple-value-bind":
+		if pos == "values" {
+			return call(form, lst(atom("w1"), atom("w2")), X, A())
+		}
+		return seq(atom(form), lst(atom("w1"), atom("w2")), b.M())
+	case "do", "do*":
 		switch pos {
 		case "init":
-			return call("do", lst(iBind, lst(atom("j"), X)), iEnd(b.M()), b.M())
+			return call(form, lst(iBind, lst(atom("j"), X)), iEnd(b.M()), b.M())
 		case "step":
-			return call("do", lst(iBind, lst(atom("j"), num(0), X)), iEnd(b.M()), b.M())
+			return call(form, lst(iBind, lst(atom("j"), num(0), X)), iEnd(b.M()), b.M())
 		case "test":
-			return call("do", lst(iBind), lst(X, b.M()), b.M())
+			return call(form, lst(iBind), lst(X, b.M()), b.M())
 		case "result":
-			return call("do", lst(iBind), iEnd(P(), X, A()), b.M())
+			return call(form, lst(iBind), iEnd(P(), X, A()), b.M())
 		}
-		return call("do", lst(iBind), iEnd(b.M()), P(), X, A())
+		return call(form, lst(iBind), iEnd(b.M()), P(), X, A())
 	case "call":
 		return call("list", P(), X, A())
 	case "setq":
@@ -207,6 +225,11 @@ func (b *builder) wrap(L *layer, X *sx) *sx {
 		return call("funcall", seq(atom("lambda"), lst(atom("p"))), num(1))
 	case "mapcar-lambda":
 		return call("mapcar", seq(atom("lambda"), lst(atom("p"))), loop12)
+	case "closure":
+		// the closure is handed to another function and called from there
+		return call("funcall",
+			call("lambda", lst(atom("f")), P(), call("funcall", atom("f"), num(0)), A()),
+			call("lambda", lst(atom("q")), b.M(), X))
 	case "defun":
 		b.fns++
 		name := fmt.Sprintf("c07-f%d", b.fns)
@@ -232,9 +255,12 @@ func (b *builder) wrap(L *layer, X *sx) *sx {
 		return seq(atom("recover"), atom("rv"), b.HM())
 	case "with-open-file":
 		f := fmt.Sprintf("f%d", L.Idx)
-		return seq(atom("with-open-file"),
-			lst(atom(f), atom("\""+inFile+"\""), atom(":direction"), atom(":input")),
-			call("vreg", num(L.Idx), atom(f)))
+		spec := lst(atom(f), atom("\""+inFile+"\""), atom(":direction"), atom(":input"))
+		if L.Idx%2 == 0 {
+			spec = lst(atom(f), atom(fmt.Sprintf("\"c07-out-%d.txt\"", L.Idx)), atom(":direction"), atom(":output"),
+				atom(":if-exists"), atom(":supersede"), atom(":if-does-not-exist"), atom(":create"))
+		}
+		return seq(atom("with-open-file"), spec, call("vreg", num(L.Idx), atom(f)))
 	case "return-from":
 		return call("return-from", atom(L.Name), X)
 	case "return":
@@ -257,7 +283,7 @@ var errSites = []func() *sx{
 	func() *sx { return call("error", atom("\"c07\"")) },
 	func() *sx { return call("/", num(1), num(0)) },
 	func() *sx { return call("car", num(1)) },
-	func() *sx { return atom(unboundName) },
+	func() *sx { return call("1+", atom(unboundName)) },
 }
 
 var guardForms = []string{"if", "when", "cond", "and", "unless", "or"}
@@ -445,6 +471,7 @@ type rgen struct {
 	r     *rand.Rand
 	b     *builder
 	clean bool
+	noIE  bool // do not draw ignore-errors (its values would be consumed)
 }
 
 var blockPool = []string{"a", "b", "nil", "a", "c"}
@@ -468,6 +495,8 @@ func pickCell(r *rand.Rand, ok func(d *cellDef) bool) (string, bool) {
 func (g *rgen) sideTree(depth int) *sx {
 	r := g.r
 	b := g.b
+	g.noIE = true
+	defer func() { g.noIE = false }()
 	var layers []layer
 	var e exitSpec
 	n := 1 + r.IntN(2)
@@ -530,7 +559,10 @@ func (g *rgen) sideTree(depth int) *sx {
 
 // usable tells whether cell d may sit between an exit of kind k and its target.
 func (g *rgen) usable(d *cellDef, k string, exits bool) bool {
-	if d.needsBlk || formOf(d.name) == "defun" {
+	if d.needsBlk || (formOf(d.name) == "defun" && k != "error" && k != "normal") {
+		return false
+	}
+	if g.noIE && formOf(d.name) == "ignore-errors" {
 		return false
 	}
 	if d.needsExit && !exits {
@@ -553,6 +585,15 @@ func (g *rgen) fillAll(layers []layer) {
 // and small side trees in sibling positions.
 func randomProgram(r *rand.Rand, clean bool) string {
 	g := &rgen{r: r, b: newBuilder(), clean: clean}
+	sideDepth := 0
+	g.b.extra = func() *sx {
+		if 0 < sideDepth || r.IntN(6) != 0 {
+			return nil
+		}
+		sideDepth++
+		defer func() { sideDepth-- }()
+		return g.sideTree(0)
+	}
 	kinds := []string{"return-from", "return-from", "return", "go", "go", "error", "error", "error", "normal"}
 	k := kinds[r.IntN(len(kinds))]
 	e := exitSpec{Kind: k}
@@ -571,11 +612,22 @@ func randomProgram(r *rand.Rand, clean bool) string {
 		})
 	}
 	var layers []layer
+	curKind := k
 	add := func(L layer) {
 		if cellByName[L.Cell].wrapper {
 			wrappers++
 		}
 		layers = append(layers, L)
+		if formOf(L.Cell) == "ignore-errors" {
+			// keep the (nil, condition) values of ignore-errors in a position
+			// that discards them
+			for _, sep := range []string{"let.body", "progn.body", "let*.body"} {
+				if g.usable(cellByName[sep], curKind, false) {
+					layers = append(layers, layer{Cell: sep})
+					break
+				}
+			}
+		}
 	}
 	inner := r.IntN(5)
 	if k == "normal" {
@@ -617,14 +669,15 @@ func randomProgram(r *rand.Rand, clean bool) string {
 	case "error":
 		switch r.IntN(5) {
 		case 0:
+			curKind = "normal"
 			add(layer{Cell: []string{"ignore-errors.body", "ignore-errors.last"}[r.IntN(2)]})
-			add(layer{Cell: "progn.body"})
 		case 1, 2:
 			add(layer{Cell: []string{"recover.body", "recover.last"}[r.IntN(2)]})
 		}
 		e.Src = r.IntN(4)
 	}
 	// the continuation: forms the landed exit completes through normally
+	curKind = "normal"
 	outer := r.IntN(4)
 	for i := 0; i < outer; i++ {
 		if c, ok := pick("normal", false); ok {
